@@ -269,6 +269,11 @@ class Program(object):
                 return [("ext", "builtins." + expr.id)]
             if b[0] == "value":
                 return self.resolve_expr_fn(b[2], b[2])
+            if b[0] == "local" and isinstance(b[1], (ast.FunctionDef, ast.AsyncFunctionDef)):
+                # a local bound exactly once to a function-valued expression (e.g. `g = partial(f, ...)`)
+                defs = [n for n in ast.walk(b[1]) if isinstance(n, ast.Assign) and any(isinstance(t, ast.Name) and t.id == expr.id for t in n.targets)]
+                if len(defs) == 1 and not _mentions(defs[0].value, expr.id):
+                    return self.resolve_expr_fn(defs[0].value, defs[0].value)
             return []
         if isinstance(expr, ast.Attribute):
             base = expr.value
@@ -416,6 +421,10 @@ def _assigned_names(fn_node):
         if isinstance(n, ast.Name) and isinstance(n.ctx, (ast.Store, ast.Del)):
             names.add(n.id)
     return names
+
+
+def _mentions(e, name):
+    return any(isinstance(n, ast.Name) and n.id == name for n in ast.walk(e))
 
 
 def enclosing_fn(node):
